@@ -58,6 +58,7 @@ package hash
 //@   ensures result != nil && result.h != nil
 
 // WriteTo of these pointer types tolerates a nil receiver (checked by their own contracts).
+//@ axiom nilfails_type(typeid(*paillier.Ciphertext)) && nilfails_type(typeid(*pedersen.Parameters)) && nilfails_type(typeid(*paillier.PublicKey))
 //@ axiom nilok_type(typeid(*pedersen.Parameters)) && nilok_type(typeid(*paillier.PublicKey)) && nilok_type(typeid(*paillier.Ciphertext)) && nilok_type(typeid(*big.Int))
 
 // ---------------------------------------------------------------- commitments (C19, C03)
@@ -108,6 +109,9 @@ package hash
 //@   summary (result != nil && len(data) == 1) ==> hstate(hash) == old(hstate(hash))
 // items whose encoders cannot fail (declared per type by axioms next to the types: curve points and scalars, ...)
 //@   summary each(data, d, wnofail(d)) ==> result == nil
+// items whose encoder reports an error for a nil receiver: hashing them succeeds only if they are present
+//@   summary result == nil ==> each(data, d, !nilfails_type(dyntype(d)) || refof(d) != 0)
+//@ spec fn nilfails_type(Int) Bool
 //@ spec fn wnofail(Iface) Bool
 //@ func (*Hash).Sum
 //@   summary bval(result) == hsum(hstate(hash))
